@@ -204,7 +204,7 @@ CHECKS = {
  "C13": dict(
    text="TLC checks on Funnel.tla that what escapes the layered exception handlers is an InvalidDefinitionError with a path "
         "exactly for raise sites of the InvalidDefinition family, and enumerates every single token mutation (and adjacent "
-        "double mutations) of three seed definitions over a 111-entry vocabulary (incl. a reference to a faulty dependency, whose file the error must then name). Every mutated text, every state of Expr.tla's "
+        "double mutations) of three seed definitions over a 116-entry vocabulary (incl. references to six faulty dependencies, one per class of fault, whose file the error must then name). Every mutated text, every state of Expr.tla's "
         "operator x operand-kind grid in five expression contexts, 45 corner texts, seeded "
         "character noise, 31 file-name shapes and 6 duplicate file sets are read: model or InvalidDefinitionError with path; the "
         "recorded chain of exception conversions of every rejected mutation is validated by TLC (TraceFunnel.tla).",
